@@ -2,7 +2,7 @@
    The extracted OCaml driver and the in-Coq replays both call only this. *)
 From Coq Require Import List ZArith NArith Bool.
 From AG Require Import Base.Val Base.Sort Str.MetaVar Str.AnB Str.Substring
-  Rewrite.Indent Rewrite.Template Tree.Tree Tree.Wf Match.MatchNode Match.Prefilter Rule.Rule Rule.Kinds Rule.Traversal Rule.Scan Rule.Eval Rule.Sem Rewrite.Splice Rewrite.EditDoc Front.JsonPrint Front.Lsp.
+  Rewrite.Indent Rewrite.Template Tree.Tree Tree.Wf Match.MatchNode Match.Prefilter Rule.Rule Rule.Kinds Rule.Traversal Rule.Scan Rule.Eval Rule.Sem Rewrite.Splice Rewrite.EditDoc Front.JsonPrint Front.Lsp Front.Select.
 Import ListNotations.
 Local Open Scope Z_scope.
 
@@ -255,6 +255,17 @@ Definition run_case (fid : Z) (v : val) : val :=
                             | Some _, Some (pv, pt) => VL [VZ pv; vN pt]
                             | _, _ => VL []
                             end) [0%N; 1%N])
+  (* 47: (args rules files) -> per file: (sorted ids of the rules applied) and the effective severities;
+         args = ((opt ids) x5 (opt filter-ids)); rule = (id lang sev (opt globs) (opt globs)); file = ((opt lang) (matching globs)) *)
+  | 47 => let gsev (z : Z) := match z with 0%Z => SError | 1%Z => SWarning | 2%Z => SInfo | 3%Z => SHint | _ => SOff end in
+          let vsev (s : sev) := VZ (match s with SError => 0 | SWarning => 1 | SInfo => 2 | SHint => 3 | SOff => 4 end) in
+          let a := gNth 0 v in
+          let oa := {| oa_error := gOpt (gList gS) (gNth 0 a); oa_warning := gOpt (gList gS) (gNth 1 a); oa_info := gOpt (gList gS) (gNth 2 a);
+                       oa_hint := gOpt (gList gS) (gNth 3 a); oa_off := gOpt (gList gS) (gNth 4 a); oa_filter := gOpt (gList gS) (gNth 5 a) |} in
+          let rules := gList (fun r => {| fr_id := gS (gNth 0 r); fr_lang := gN (gNth 1 r); fr_sev := gsev (gZ (gNth 2 r));
+                                          fr_files := gOpt (gList gN) (gNth 3 r); fr_ignores := gOpt (gList gN) (gNth 4 r) |}) (gNth 1 v) in
+          VL (map (fun f => let ff := {| ff_lang := gOpt gN (gNth 0 f); ff_globs := gList gN (gNth 1 f) |} in
+                            VL (map (fun r => VL [VS (fr_id r); vsev (fr_sev r)]) (rules_for_file oa rules ff))) (gL (gNth 2 v)))
   (* 42: (style ((doc ..) ..)) -> bytes written by the JSON printer *)
   | 42 => VS (run_printer (match gZ (gNth 0 v) with 0%Z => Pretty | 1%Z => Stream | _ => Compact end)
                           (gList (gList gS) (gNth 1 v)))
